@@ -623,28 +623,26 @@ func (cr *concRun) checkLoadRemovedNewerWrite() {
 				continue
 			}
 			// the event must belong to this load's installation step
-			if ev.Task >= 0 {
-				if !(l.Task == ev.Task && l.OpIdx == ev.OpIdx) {
-					continue
+			if ev.Task >= 0 && !(l.Task == ev.Task && l.OpIdx == ev.OpIdx) {
+				continue
+			}
+			end := l.InstallEnd
+			if end == 0 && ev.Task < 0 && l.TaskRef != nil {
+				end = l.TaskRef.FinishSeq
+			}
+			if end != 0 && ev.Seq > end {
+				continue
+			}
+			// a later loader call of the same task (e.g. the load phase of a BulkGet after its
+			// reload phase, which may volunteer this key) owns later events
+			later := false
+			for _, l2 := range cr.r.Loads {
+				if l2 != l && l2.TaskRef == l.TaskRef && l2.Enter > l.Exit && l2.Enter < ev.Seq {
+					later = true
 				}
-			} else {
-				end := l.InstallEnd
-				if end == 0 && l.TaskRef != nil {
-					end = l.TaskRef.FinishSeq
-				}
-				if end != 0 && ev.Seq > end {
-					continue
-				}
-				// a later loader call of the same background task owns later events
-				later := false
-				for _, l2 := range cr.r.Loads {
-					if l2 != l && l2.TaskRef == l.TaskRef && l2.Enter > l.Exit && l2.Enter < ev.Seq {
-						later = true
-					}
-				}
-				if later {
-					continue
-				}
+			}
+			if later {
+				continue
 			}
 			cr.probe["load-install-displaced-explicit-value"]++
 			if w.Call > l.Enter {
